@@ -48,9 +48,11 @@ impl BoxedMontyParams {
 
         // `R mod modulus` where `R = 2^BITS`.
         // Represents 1 in Montgomery form.
+        // (the sum equals the modulus itself when the modulus is 1, hence the second reduction)
         let one = BoxedUint::max(bits_precision)
             .rem(modulus.as_nz_ref())
-            .wrapping_add(&BoxedUint::one());
+            .wrapping_add(&BoxedUint::one())
+            .rem(modulus.as_nz_ref());
 
         // `R^2 mod modulus`, used to convert integers to Montgomery form.
         let r2 = one
@@ -91,9 +93,11 @@ impl BoxedMontyParams {
 
         // `R mod modulus` where `R = 2^BITS`.
         // Represents 1 in Montgomery form.
+        // (the sum equals the modulus itself when the modulus is 1, hence the second reduction)
         let one = BoxedUint::max(bits_precision)
             .rem_vartime(modulus.as_nz_ref())
-            .wrapping_add(&BoxedUint::one());
+            .wrapping_add(&BoxedUint::one())
+            .rem_vartime(modulus.as_nz_ref());
 
         // `R^2 mod modulus`, used to convert integers to Montgomery form.
         let r2 = one
